@@ -28,7 +28,8 @@ META = {
             "table search. obs-fold is 'joined' by HttpHeader::parse in the sense that the continuation lines become part "
             "of one field value with the line ends kept as written (the replacing of folds by SP is done earlier by "
             "Http::One::Parser's unfolding pass, outside the anchors). Trimming removes all isspace() bytes (SP HT LF VT "
-            "FF CR), a superset of OWS.",
+            "FF CR), a superset of OWS, except around Content-Length and Transfer-Encoding values where only SP/HTAB are "
+            "removed (/repo cc868a1).",
     "technique": "Coq proof (refinement of the one-pass accumulator loop to a lines/groups/fields pipeline by two nested "
                  "inductions; storable-entry invariant for the pack/parse round trip) + regenerated header and character "
                  "tables + extracted-model differential correspondence + independent Python oracle",
@@ -155,6 +156,9 @@ def framing_field(rng):
     else:
         nm = rand_case(rng, b"Transfer-Encoding")
         v = rng.choice([b"chunked", b"chunked", b"Chunked", b"gzip", b"gzip, chunked", b"", b"identity", b"chunked "])
+    if rng.random() < 0.12:              # VT / FF / CR right next to the framing value (not OWS)
+        junk = rng.choice([b"\x0b", b"\x0c", b"\r", b"\x0b ", b" \x0c", b"\x0c\x0b"])
+        v = junk + v if rng.random() < 0.5 else v + junk
     k = rng.random()
     if k < 0.10:                         # the forms the property says must be rejected
         i = rng.randrange(0, len(v) + 1)
@@ -257,6 +261,9 @@ def gen_cases(rng, n):
 
 
 # ------------------------------------------------------------------ oracle (independent of the model)
+FRAMING = (b"content-length", b"transfer-encoding")
+
+
 def is_tchar_name(n):
     return len(n) > 0 and all(c in TCH for c in n)
 
@@ -276,7 +283,8 @@ def split_field(text, req):
         name = raw.rstrip(ISSPACE)
     if not is_tchar_name(name):
         return None
-    value = text[colon + 1:].strip(ISSPACE)
+    # only SP / HTAB (RFC 9110 OWS) around the framing fields, all of isspace() around the others
+    value = text[colon + 1:].strip(b" \t" if name.lower() in FRAMING else ISSPACE)
     if len(value) > 65534:
         return None
     return name, value
@@ -450,7 +458,8 @@ def oracle(case, out):
                [x for x in es] != [x for x in want]:
                 return ("oracle:fields-differ", "stored fields %r, the block reads %r" % (es[:6], want[:6]))
             for (i, n, v) in es:
-                if v[:1] and (v[0] in ISSPACE or v[-1] in ISSPACE):
+                ws = b" \t" if i in (cl_id, te_id) else ISSPACE
+                if v[:1] and (v[0] in ws or v[-1] in ws):
                     return ("oracle:value-not-trimmed", "stored value %r has surrounding white space" % v[:60])
             # --- packing and re-parsing
             exp_pack = b"".join(n + b": " + v + b"\r\n" for (i, n, v) in es)
